@@ -167,11 +167,14 @@ class Scatterer(HoloPyObject):
         domain : np.ndarray (N)
            The domain of each point. Domain 0 means not in the particle
         """
-        points = np.array(points)
+        # (double precision: unsigned or narrow integer points would wrap
+        # around in the difference to the centre)
+        points = np.array(points, dtype=float)
         if points.ndim == 1:
             points = points.reshape((1, 3))
         domains = np.zeros(points.shape[:-1], dtype='int')
-        indicators = self.indicators(points - self.center)
+        indicators = self.indicators(
+            points - np.asarray(self.center, dtype=float))
         # Indicators earlier in the list have priority
         for i, ind in reversed(list(enumerate(indicators))):
             domains[np.nonzero(ind)] = i + 1
